@@ -228,7 +228,11 @@ def run(cx: Cx):
             if isinstance(it, App) and it.fn == 'range':
                 rng = it.args[0] if len(it.args) == 1 else (it.args[1] if len(it.args) == 2 and it.args[0] == ZERO else None)
             rng = subst_term(rng, param_of) if rng is not None else None
-            if got == want and rng == total:
+            # the same inverse taken layer first: i = z*(Nx*Ny) + r, then r = y*Nx + x (for Nx, Ny >= 1: (i mod ab) mod a = i mod a and
+            # (i mod ab) div a = (i div a) mod b)
+            r_ = App('%', (i_, mul(N['x'], N['y'])))
+            want_b = TupleT((App('%', (r_, N['x'])), App('//', (r_, N['x'])), App('//', (i_, mul(N['x'], N['y'])))))
+            if got in (want, want_b) and rng == total:
                 prod_ok = True
                 facts.append(('closed form', repr(got)))
             else:
@@ -303,7 +307,7 @@ def run(cx: Cx):
 
     # every in-package call site of the id function (the two if_int helpers are C10's; listed here for the floor)
     callers = cx.effects.callers_of(idf)
-    cx.floor('in-package call sites of discrete_grid_pos_to_id', len([c for c in callers if 'discreteGridPosToID' not in c[0]]), 1)
+    cx.floor('in-package call sites of discrete_grid_pos_to_id', len([c for c in callers if 'discreteGridPosToID' not in c[0]]), 0)
 
     # id -> coordinates
     gp = cx.fn(DW + '._get_cell_pos_as_tuple')
